@@ -145,15 +145,20 @@ CLAIMED = {
    technique="Coq proof (lookup/error lemmas) + differential correspondence against independent producers",
    design="8 (C03)"),
  "C10": dict(
-   text="Machine-checked Coq theorems over the streaming-reader model: an entry handle is only produced for unencrypted, "
-        "sized, decodable entries (others are an error, never data); after a handle is dropped the stream position is "
-        "the end of its compressed data whatever was consumed.  Agreement with the seekable reader and the visitor "
+   text="Machine-checked Coq theorems over the streaming-reader model: AGREEMENT on what the writer writes: for any number "
+        "of stored entries with any names / options / contents, the bytes finish() returns are walked by the streaming "
+        "reader from offset 0 into one entry per written entry, in order, with the written raw name, method, CRC, sizes "
+        "and exactly the written payload, stopping on the first central directory signature; C01_stored_roundtrip states "
+        "the same for the seekable reader on the same bytes, so both agree entry by entry (local-header codec round trip "
+        "incl. the writer's header patch, drain-on-drop positioning).  Also: an entry handle is only produced for "
+        "unencrypted, sized, decodable entries (others are an error, never data); after a handle is dropped the stream "
+        "position is the end of its compressed data whatever was consumed.  Agreement on FOREIGN layouts and the visitor "
         "contract (files in order, then one metadata record per entry, fix D6) are carried by the correspondence: "
         "streamed sequences under cyclic consumption patterns {0,1,k,all} compared with the model and, entry by entry, "
         "with the seekable reader on the same bytes; refused archives; damaged and truncated streams.",
-   note="Trusted: Coq kernel, extraction+driver, harness, genzip.py. PARTIAL: the agreement theorem stream_entries (render a) = seekable view is pending (needs the layout theorem of C03).",
-   technique="Coq proof (stream-position and refusal lemmas) + differential correspondence stream vs model vs seekable reader",
-   design="8 (C10)"),
+   note="Trusted: Coq kernel, extraction+driver, harness, genzip.py. PARTIAL: the agreement theorem covers archives of stored entries written by the writer model on a well-behaved sink; compressed entries, foreign producers, data descriptors and the metadata phase of visit() are decided per generated archive.",
+   technique="Coq proof (stream reader = written entries = seekable reader on writer-rendered archives; position and refusal lemmas) + differential correspondence stream vs model vs seekable reader",
+   design="8 (C10), 13"),
  "C04": dict(
    text="Machine-checked Coq theorems: for an arbitrary inner reader (any decoder or decryptor, even a misbehaving one), "
         "an arbitrary checksum function and every schedule of caller buffer sizes including zero-length reads, an end "
